@@ -23,6 +23,7 @@ From TucModel Require Import Base.Bytes Base.ListX Model.Bounds Spec.Resolve Pro
   Spec.Fields Proofs.ScanSplit Tie.RsScan Tie.Gen_fill_fields Tie.Bridge_fill_fields Tie.Gen_compress_delimiter Tie.Bridge_compress_delimiter
   Proofs.C01More Tie.Gen_trim Tie.Bridge_trim
   Tie.Gen_fb_try_from Tie.Bridge_fb_try_from
+  Model.Utf8 Model.CutLines Proofs.C05 Proofs.C03Full Proofs.C05Full Tie.RsLines Tie.Gen_read_and_cut_lines Tie.Bridge_read_and_cut_lines
   Proofs.C12 Proofs.C16 Tie.Gen_fill_regex Tie.Bridge_fill_regex Tie.Gen_trim_regex Tie.Bridge_trim_regex
   Proofs.Plain Proofs.C16Replace Tie.RsRegex Tie.Gen_maybe_replace Tie.Bridge_maybe_replace
   Model.CutStr Tie.Gen_fast_output_parts Tie.Bridge_fast_output_parts Tie.Gen_fast_cut_record Tie.Bridge_fast_cut_record Proofs.C02
@@ -332,7 +333,26 @@ Proof.
   intros line k r. apply tie_trim_regex; [reflexivity|]. apply (proj1 (re_matches_wf (RPlus r) line)).
 Qed.
 
+(** C05 over the translated dispatcher of line mode: whichever of the two algorithms it picks for a
+    request (the choice is the code's, translated), what is printed is the selection of the statement *)
+Theorem tie_C05_whichever_algorithm : forall (o : opt) (input : bytes) (bs : list bof) (x : bytes),
+  plain_opts o (o_eol o) -> o_trim o = None -> o_only_delimited o = false -> o_replace o = None ->
+  items (o_bounds o) = bs -> Forall item_nz bs -> bs <> [] ->
+  fwd_ok 1 (Z.of_nat (length (records (o_eol o) input))) bs -> last_marked bs ->
+  Forall (fun l => utf8_valid l = true) (records (o_eol o) input) -> records (o_eol o) input <> [] ->
+  utf8_valid input = true -> input <> [] -> strip_one_suffix (o_eol o) input <> [] ->
+  spec_items (records (o_eol o) input) (o_fallback o) (o_join o) [o_eol o] bs = Some x ->
+  gen_read_and_cut_lines input o = Ret (Some tt, x ++ [o_eol o]).
+Proof.
+  intros o input bs x Hp Ht Hs Hr Hb Hnz Hne Hok Hlm Hu Hl Hv Hi Hst Hx.
+  rewrite tie_read_and_cut_lines. unfold read_and_cut_lines. destruct (can_be_streamed o).
+  - destruct (C05_forward o (records (o_eol o) input) bs Hl Hne Hok Hlm Hu) as (x' & E1 & E2).
+    rewrite Hb. unfold lines_of. rewrite E2. rewrite Hx in E1. injection E1 as <-. reflexivity.
+  - rewrite (C05_buffered_same o input bs x Hp Ht Hs Hr Hb Hnz Hv Hi Hst Hx). reflexivity.
+Qed.
+
 Print Assumptions tie_try_into_range_spec.
+Print Assumptions tie_C05_whichever_algorithm.
 Print Assumptions tie_C16_fields_are_the_gaps.
 Print Assumptions tie_C16_trim.
 Print Assumptions tie_C19_forward_bounds_test.
